@@ -150,10 +150,30 @@ def job_cell(job):
     solver = worker_solver(120000, 'z3-new', lut_mode='ite', logic='ALL')
     for a_ in asm:
         solver.assume(a_)
+    # witness search by evaluating the FP obligations under seed-chosen option values (z3's FP theory rarely finds these
+    # models within the budget; a hit is replayed natively like any solver model)
+    pre_fail = None
+    if mode == 'override':
+        import random as _r
+        rr = _r.Random(seed * 7 + v)
+        for t_ in range(300):
+            env = {'margin': rr.choice([0, 1, 2, 3, 4, 7, 16]),
+                   'size': rr.choice([float(rr.randrange(0, 40)), rr.randrange(0, 80) / 2.0, rr.uniform(0, 1000)]),
+                   'gap': rr.choice([float(rr.randrange(0, 10)), rr.randrange(0, 20) / 2.0, rr.uniform(0, 100)]),
+                   'pos_x': rr.choice([float(rr.randrange(0, 60)), rr.uniform(0, 4096)]), 'pos_y': rr.choice([float(rr.randrange(0, 60)), rr.uniform(0, 4096)])}
+            for lab_, c_ in items:
+                if type(c_) is not int and F.eval_bool(c_, env) == 0:
+                    pre_fail = (lab_ + ' [witness found by term evaluation]', env)
+                    break
+            if pre_fail:
+                break
     se, ne_, fe, ue = discharge(solver, exact, eval_search=0, chunk=1)
     if fe or ue:
         raise Inconclusive('an intermediate value leaves the exact fixed-point model of f64 (%s)' % (fe or ue)[:1])
-    syn, nsolv, fails, unk = discharge(solver, items + pan, eval_search=0, chunk=1)
+    if pre_fail is not None:
+        syn, nsolv, fails, unk = 0, len(items), [pre_fail], []
+    else:
+        syn, nsolv, fails, unk = discharge(solver, items + pan, eval_search=0, chunk=1)
     res['obligations'] = len(items) + len(pan)
     res['panic_obligations'] = len(pan)
     res['evaluations'] = res['obligations']
